@@ -20,11 +20,12 @@ import time
 
 ROOT = os.path.dirname(os.path.abspath(__file__))
 SPEC = os.path.join(ROOT, "spec")
-WORK = os.path.join(ROOT, "work")
-HARNESS = os.path.join(ROOT, "harness")
-EVID = os.path.join(ROOT, "evidence")
+# (the VERIF_DEV_* overrides exist for development against scratch copies; registered commands never set them)
+WORK = os.environ.get("VERIF_DEV_WORK", os.path.join(ROOT, "work"))
+HARNESS = os.environ.get("VERIF_DEV_HARNESS", os.path.join(ROOT, "harness"))
+EVID = os.environ.get("VERIF_DEV_EVID", os.path.join(ROOT, "evidence"))
 REPLAYS = os.path.join(ROOT, "replays")
-REPO = "/repo"
+REPO = os.environ.get("VERIF_DEV_REPO", "/repo")
 TLC_WORKERS = int(os.environ.get("VERIF_TLC_WORKERS", "4"))
 JOBS_PAR = int(os.environ.get("VERIF_JOBS", "6"))
 
@@ -153,6 +154,8 @@ def one_job(pid, tier, seed, job, bins):
     Returns (tlc summary, [(profile, report or None, crash-failure or None)], table, jkey)."""
     tag = "%s-%s-%s" % (pid, tier, job["tag"])
     jkey = job_key(job)
+    if job.get("spec") == "trace":
+        return trace_job(pid, tier, seed, job, bins, tag, jkey)
     pair = job.get("spec") == "pair"
     micro = job.get("spec") == "micro"
     if micro:
@@ -208,6 +211,98 @@ def one_job(pid, tier, seed, job, bins):
         else:
             outs.append((prof, json.load(open(rep_path)), None))
     return st, outs, table, jkey, tag
+
+
+def trace_props(op):
+    """properties an event of this call speaks about (mirrors harness/src/replay.rs op_props)"""
+    n = op.get("name", "")
+    if n in ("insert", "insert_key_value", "checked_insert"):
+        return {"C01", "C12", "C03", "C02", "C05"}
+    if n in ("get", "get_mut", "contains_key", "index", "index_mut", "remove", "retain", "clear", "drop", "get_key_value", "remove_entry"):
+        return {"C01", "C02", "C05", "C12"}
+    if n in ("drain", "s_drain"):
+        return {"C01", "C07", "C10", "C12", "C02"}
+    if n == "cursor":
+        return {"C10", "C12", "C02"} if op.get("kind", "").startswith("into_") else {"C09", "C12"}
+    if n == "entry":
+        return {"C11", "C12", "C03", "C02", "C05"}
+    if n == "disjoint":
+        return {"C13"}
+    if n in ("s_iter",):
+        return {"C09", "C12"}
+    if n in ("s_into_iter",):
+        return {"C10", "C12", "C02"}
+    if n == "s_extend":
+        return {"C07", "C16", "C12", "C03", "C02", "C05"}
+    if n.startswith("s_"):
+        return {"C07", "C12", "C02", "C05", "C03"}
+    return {"C01"}
+
+
+def trace_job(pid, tier, seed, job, bins, tag, jkey):
+    """Direction B: record long random histories of the real crate, validate them with TLC
+    against spec/Trace.tla (the ideal dictionary of Dict.tla)."""
+    outs = []
+    agg = {"tag": tag, "generated": 0, "distinct": 0, "emitted": 0, "wall": 0.0, "consts": {k: job[k] for k in ("mode", "runs", "steps", "caps", "classes")},
+           "cmd": "harness trace ... ; TRACE=<file> tlc -workers 1 -config Trace.cfg Trace.tla (POSTCONDITION Accepted)", "ok": True}
+    for prof, binp in bins.items():
+        d = os.path.join(WORK, "trace-%s-%s" % (tag, prof))
+        shutil.rmtree(d, ignore_errors=True)
+        os.makedirs(d)
+        tr = os.path.join(d, "trace.ndjson")
+        info = os.path.join(d, "info.json")
+        p = subprocess.run([binp, "trace", "--mode", job["mode"], "--seed", str(seed), "--runs", str(job["runs"]), "--steps", str(job["steps"]),
+                            "--caps", ",".join(map(str, job["caps"])), "--classes", str(job["classes"]), "--trace", tr, "--out", info],
+                           stdout=subprocess.PIPE, stderr=subprocess.STDOUT, text=True, timeout=3000)
+        crashed = p.returncode != 0 or not os.path.exists(info)
+        for f in os.listdir(SPEC):
+            if f.endswith(".tla"):
+                shutil.copy(os.path.join(SPEC, f), d)
+        with open(os.path.join(d, "Trace.cfg"), "w") as f:
+            f.write("SPECIFICATION Spec\nPOSTCONDITION Accepted\nCHECK_DEADLOCK FALSE\n")
+        nev = sum(1 for _ in open(tr)) if os.path.exists(tr) else 0
+        t0 = time.time()
+        q = subprocess.run(["timeout", "1500", "tlc", "-workers", "1", "-noGenerateSpecTE", "-metadir", os.path.join(d, "states"), "-config", "Trace.cfg", "Trace.tla"],
+                           cwd=d, stdout=subprocess.PIPE, stderr=subprocess.STDOUT, text=True,
+                           env=dict(os.environ, TRACE=tr, JAVA_TOOL_OPTIONS="-Xss1g -Dtlc2.tool.queue.IStateQueue=StateDeque"))
+        agg["wall"] += time.time() - t0
+        shutil.rmtree(os.path.join(d, "states"), ignore_errors=True)
+        if q.returncode == 124:
+            raise ToolError("TLC timed out validating a trace (%s)" % tag)
+        m = re.search(r"depth of the complete state graph search is (\d+)", q.stdout)
+        depth = int(m.group(1)) if m else 0
+        accepted = "No error has been found" in q.stdout and depth - 1 == nev and not crashed
+        rep = {"edges": 0, "walks": job["runs"], "walk_steps": max(depth - 1, 0), "drift": 0, "poison_active": False, "distinct_states": 0,
+               "op_counts": {}, "samples": [], "drift_examples": [], "fail_examples": {}, "fail_counts": {}}
+        agg["generated"] += depth
+        agg["distinct"] += depth
+        agg["emitted"] += nev
+        if not accepted:
+            if depth == 0 and not m:
+                raise ToolError("TLC failed on the trace specification (%s): %s" % (tag, q.stdout[-2000:]))
+            ev = None
+            try:
+                with open(tr) as f:
+                    for i, l in enumerate(f):
+                        if i == depth - 1:
+                            ev = json.loads(l)
+                            break
+            except Exception:
+                pass
+            props = trace_props((ev or {}).get("o", {})) if ev else {"CRASH"}
+            why = "the harness died while recording" if crashed and ev is None else "TLC rejects event %d of the recorded execution: it is not a step the specification (Dict.tla) allows" % depth
+            errs = [l for l in q.stdout.splitlines() if l.startswith("Error:") or "REJECTED" in l]
+            for pr in props:
+                rep["fail_examples"].setdefault(pr, []).append({"line": depth, "how": "trace validation (direction B), %s build" % prof,
+                                                                 "msg": "%s; viol=%s; %s" % (why, (ev or {}).get("viol"), " | ".join(errs)[:400]), "transition": ev})
+                rep["fail_counts"][pr] = 1
+        else:
+            with open(tr) as f:
+                for i, l in enumerate(f):
+                    if i in (7, 401):
+                        rep["samples"].append(json.loads(l))
+        outs.append((prof, rep, None))
+    return agg, outs, "", jkey, tag
 
 
 def mapgraph(pid, tier, seed, jobs, profiles):
@@ -353,18 +448,23 @@ def jobs_for(pid, tier):
         micro_adv = [micro("ma-map-n%d" % n, "map", True, n, [1], MFAM, MaxJ=4, MaxItems=4) for n in (0, 1, 2, 3, 4)] + \
                     [micro("ma-set-n%d" % n, "set", True, n, [1], SFAM, MaxItems=4) for n in (0, 1, 2, 3, 4)]
 
+    def trace(tag, mode):
+        return dict(tag=tag, spec="trace", mode=mode, family=["trace"], runs=(6 if q else 40), steps=(400 if q else 2000),
+                    caps=[8, 6, 4, 2], classes=12)
+
+    tmap, tset = [trace("trace-map", "map")], [trace("trace-set", "set")]
     qcaps = [(2, 3), (3, 2), (0, 2), (2, 0)]
     tcaps = [(2, 3), (3, 2), (0, 2), (2, 0), (0, 0), (1, 1), (2, 2), (3, 3), (3, 4), (4, 3), (4, 4), (2, 4), (4, 2)]
     core = both("core", ["core"])
     setcore = both("setcore", ["core"], mode="set")
     table = {
-        "C01": core,
-        "C07": setcore + both("setbulk", ["bulk"], mode="set", consts={"MaxExtra": 1}, bigconsts={"Vers": [0]}),
-        "C09": both("cursor", ["cursor"]) + setcore,
-        "C10": both("cursor", ["cursor"]) + core + setcore,
-        "C11": both("entry", ["entry"]),
-        "C12": core + both("entry", ["entry"]) + setcore,
-        "C13": both("disjoint", ["disjoint"], consts={"Vers": [0], "MaxKs": 3}, bigconsts={"MaxKs": 4}),
+        "C01": core + tmap,
+        "C07": setcore + both("setbulk", ["bulk"], mode="set", consts={"MaxExtra": 1}, bigconsts={"Vers": [0]}) + tset,
+        "C09": both("cursor", ["cursor"]) + setcore + tmap + tset,
+        "C10": both("cursor", ["cursor"]) + core + setcore + tmap + tset,
+        "C11": both("entry", ["entry"]) + tmap,
+        "C12": core + both("entry", ["entry"]) + setcore + tmap + tset,
+        "C13": both("disjoint", ["disjoint"], consts={"Vers": [0], "MaxKs": 3}, bigconsts={"MaxKs": 4}) + tmap,
         "C16": both("bulk", ["bulk"], bigconsts={"MaxExtra": 1}) + both("setbulk", ["bulk"], mode="set", consts={"MaxExtra": 1}, bigconsts={"Vers": [0]}),
         "C18": both("unchecked", ["unchecked"], consts={"MaxKs": 3}, bigconsts={"Vers": [0], "MaxKs": 4}),
         "C19": both("fmt", ["fmt", "cursor"]) + setcore,
@@ -383,8 +483,8 @@ def jobs_for(pid, tier):
                 both("core", ["core"], consts={"Vers": [0]}) + both("ed", ["entry", "disjoint"], consts={"Vers": [0], "Vals": [0]}, bigconsts={"MaxKs": 3})
                 + both("bulkclone", ["bulk", "clone"], consts={"Vers": [0], "Vals": [0], "MaxExtra": 1})
                 + both("setcore", ["core"], mode="set", consts={"Vers": [0]}) + both("setbc", ["bulk"], mode="set", consts={"MaxExtra": 1, "Vers": [0]})],
-        "C05": core + both("entry", ["entry"]) + setcore,
-        "C02": core + both("cursor", ["cursor"]) + setcore,
+        "C05": core + both("entry", ["entry"]) + setcore + tmap + tset,
+        "C02": core + both("cursor", ["cursor"]) + setcore + tmap + tset,
         "C03": core + both("entry", ["entry"]) + both("bulk", ["bulk"], bigconsts={"MaxExtra": 1}) + setcore
                + both("setbulk", ["bulk"], mode="set", consts={"MaxExtra": 1}, bigconsts={"Vers": [0]}),
     }
